@@ -198,6 +198,11 @@ func main() {
 		*prop, onlyKey = rp.Property, rp.Key
 		*noEvidence = true
 	}
+	if *prop == "all" {
+		// evaluation helper (never registered in MANIFEST.json): load once, evaluate every property
+		// without writing evidence; exit code is the worst of all properties
+		os.Exit(runAll(loadOpts{repo: *repo}, *prop, *mutant, vd, *tier, *verbose))
+	}
 	spec, ok := props[*prop]
 	if !ok {
 		fatal(2, "unknown property %q", *prop)
@@ -267,6 +272,40 @@ func main() {
 		return finish(r, spec, vd, *tier, seed, start, onlyKey, *noEvidence, *verbose, variants, selftest)
 	}()
 	os.Exit(exit)
+}
+
+func runAll(lo loadOpts, _ string, _ string, vd, tier string, verbose bool) (worst int) {
+	start := time.Now()
+	P, err := loadProgram(lo)
+	if err != nil {
+		fmt.Printf("UNDECIDED property=all load failed: %v\n", err)
+		return 2
+	}
+	var ids []string
+	for id := range props {
+		ids = append(ids, id)
+	}
+	sort.Strings(ids)
+	for _, id := range ids {
+		code := func() (code int) {
+			defer func() {
+				if e := recover(); e != nil {
+					fmt.Printf("UNDECIDED property=%s checker panic: %v\n%s\n", id, e, debug.Stack())
+					code = 2
+				}
+			}()
+			r := newRun(P, id, tier)
+			for _, rule := range props[id].Rules {
+				rule.Fn(r)
+			}
+			return finish(r, props[id], vd, tier, 0, start, "", true, verbose, nil, nil)
+		}()
+		fmt.Printf("RESULT property=%s exit=%d\n", id, code)
+		if code > worst {
+			worst = code
+		}
+	}
+	return worst
 }
 
 func fatal(code int, f string, a ...interface{}) {
